@@ -84,7 +84,8 @@ PREDS = [["gt", x, lit(1)], ["eq", g, lit(1)], ["is_null", x], ["lt", k, lit(3)]
 def window_pairs():
     """(lhs events, rhs events) for the grouped-arrange-window equivalence"""
     out = []
-    orders = [[k], [["desc", k]], [["nulls_last", x], k]]
+    orders = [[k], [["desc", k]], [["nulls_last", x], k],
+              [["desc", ["nulls_last", x]], k], [["desc", ["nulls_first", x]], ["desc", k]], [["nulls_first", x], k]]
     for o in orders:
         fns = {
             "row_number": (["row_number"], lambda ck: ["row_number", ck]),
